@@ -157,7 +157,18 @@ Definition ra_exit (x : ra) : ra :=
   let (a, q) := x in
   (fa_exit a, {| ge_done := ge_done q && ge_cur q && ge_todo q; ge_cur := true; ge_todo := true; lt_cb := false; locrel := exit_loc q; bguard := bguard q |}).
 
-Definition ra_special0 (l : nat) (incur : bool) (s : stmt) (x : ra) : option (ra * list alarm) := None.
+(* r.position = <arithmetic>; r.check_limits()  -- a strong update of one slot: it ends feasible, the others are untouched *)
+Definition havoc_clip (t : stmt) : option ref :=
+  match t with
+  | Seq (Havoc _ r) (Clip r') => if ref_eqb r r' && negb (is_best r) then Some r else None
+  | _ => None
+  end.
+
+Definition ra_special0 (l : nat) (incur : bool) (s : stmt) (x : ra) : option (ra * list alarm) :=
+  match havoc_clip (strip s) with
+  | Some r => Some (norm (wr r Feas (fst x), snd x), [])
+  | None => None
+  end.
 Definition ra_absint0 := absint ra ra_leb ra_join ra_atom ra_assume ra_enter ra_exit ra_special0.
 
 (* ForSlots visits every slot exactly once, in order *)
@@ -184,7 +195,7 @@ Definition ra_special (l : nat) (incur : bool) (s : stmt) (x : ra) : option (ra 
       Some (let (j, al) := loop ra ra_leb ra_join l'
                              (fun j => let (j', al) := ra_absint0 l' true b (fs_enter j) in (fs_exit j', al)) (fs_start x) in
             (fs_finish j, al))
-  | _ => None
+  | _ => ra_special0 l incur s x
   end.
 
 Definition ra_absint := absint ra ra_leb ra_join ra_atom ra_assume ra_enter ra_exit ra_special.
